@@ -1,4 +1,5 @@
 import HpackVerif.Props.Common
+import HpackVerif.Proofs.Utf8Proof
 /-! # C01 — Encoder→Decoder round trip preserves every header list over a connection
 
 A connection history is a list of `ConnOp`s: the application assigns the encoder's table size, or a
@@ -83,6 +84,26 @@ theorem text_mode_same (st : DecState) (data : Bytes) (hs : List Header)
   | esc x =>
     have e : Impl.decode Gen.intCap true st data = (.esc x, (Impl.decode Gen.intCap true st data).2) := by rw [← hr]
     rw [e] at hd; cases hd
+
+/-- text round trip: when the fields that were encoded were given as text (`str`), the bytes the decoder
+    recovers are their UTF-8 encodings (raw-mode round trip, above), which the strict decoder accepts
+    (`validUtf8_text`) — so text mode returns them too, with the same state: text is recovered through its
+    UTF-8 encoding -/
+theorem text_roundtrip (st : DecState) (data : Bytes) (fields : List (PyStr × PyStr)) (out : List Header)
+    (hd : (Cur.decode st data true).1 = .ok out)
+    (hmatch : out.map (fun h => (h.name.bytes, h.value.bytes)) = fields.map (fun f => (f.1.toBytes, f.2.toBytes)))
+    (htext : ∀ f ∈ fields, (∃ s, f.1 = .text s) ∧ (∃ s, f.2 = .text s)) :
+    Cur.decode st data false = Cur.decode st data true := by
+  apply text_mode_same st data out hd
+  intro h hm
+  have : (h.name.bytes, h.value.bytes) ∈ fields.map (fun f => (f.1.toBytes, f.2.toBytes)) := by
+    rw [← hmatch]; exact List.mem_map.mpr ⟨h, hm, rfl⟩
+  obtain ⟨f, hf, heq⟩ := List.mem_map.mp this
+  obtain ⟨⟨s1, h1⟩, ⟨s2, h2⟩⟩ := htext f hf
+  simp only [Prod.mk.injEq] at heq
+  constructor
+  · rw [← heq.1, h1]; exact validUtf8_text s1
+  · rw [← heq.2, h2]; exact validUtf8_text s2
 
 /-! non-vacuity: a concrete history — shrink the table to 40, send a sensitive and an ordinary field with
     Huffman coding, grow to 100, send them again — satisfies `OpsOK` and runs to completion -/
